@@ -1087,12 +1087,12 @@ impl Model {
                         && s.retained_ok.get(&topic).map(|(ok, _)| ok.contains(&payload)).unwrap_or(false)
                 })
                 .collect();
-            // several subscriptions may be owed this replay: the one that still *requires* it explains it best,
-            // then the right QoS, then the most recent subscription
+            // several subscriptions may be owed this replay: the forward carries the granted QoS of the subscription it
+            // is made for, so the right QoS comes first, then the one that still *requires* it, then the most recent
             let hit = eligible.iter().copied().min_by_key(|i| {
                 let s = &self.sessions[&client].subs[*i];
                 let optional = s.retained_ok.get(&topic).map(|x| x.1).unwrap_or(true);
-                (optional, s.qos != p.qos, std::cmp::Reverse(s.sub_step))
+                (s.qos != p.qos, optional, std::cmp::Reverse(s.sub_step))
             });
             match hit {
                 Some(i) => {
@@ -1174,6 +1174,13 @@ impl Model {
             } else {
                 if by_qos.len() > 1 {
                     hits = by_qos;
+                } else {
+                    // no candidate was granted this QoS: a subscription that was repeated with another QoS (whose
+                    // forwards may still carry the first one) explains it before an unrelated subscription does
+                    let requal: Vec<usize> = hits.iter().copied().filter(|i| self.sessions[&client].subs[*i].resubscribed_qos_changed).collect();
+                    if !requal.is_empty() {
+                        hits = requal;
+                    }
                 }
                 if ids.is_empty() {
                     self.conns[conn].ambiguous = true;
@@ -1228,6 +1235,8 @@ impl Model {
                 .iter()
                 .copied()
                 .find(|i| self.sessions[&client].subs[*i].qos == p.qos)
+                // (no member subscription was granted this QoS: one that was repeated with another QoS explains it first)
+                .or_else(|| pool.iter().copied().find(|i| self.sessions[&client].subs[*i].resubscribed_qos_changed))
                 .unwrap_or(pool[0]);
             let (gname, filter, path, closed_at, last, sub_qos, requal) = {
                 let s = &self.sessions[&client].subs[pick];
